@@ -44,6 +44,7 @@ func FullAlphabet() []Tok {
 		Tok{token.FLOAT, "2,5", false},
 		Tok{token.STRING, "\"s\"", false},
 		Tok{token.STRING, "\"g <p>\"", false}, // a text that is also a well-formed alias pattern
+		Tok{token.ALIAS_PARAMETER, "<a>", false}, // a placeholder (inside an alias string) / three symbols elsewhere
 		Tok{token.CHAR, "'c'", false},
 		Tok{token.IDENTIFIER, "x", false}, // declared variable (by the prelude)
 		Tok{token.IDENTIFIER, "f", false}, // declared function (by the prelude), also the word of its alias
